@@ -228,6 +228,7 @@ func vpDefaultOpts(role StateType) vpOpts {
 	if role == StateLeader {
 		o.leaderPr = true
 		o.inflPeers = 1
+		o.symPeers = 1
 	}
 	return o
 }
@@ -299,9 +300,29 @@ func vpStepCell(role StateType, o vpOpts, mo vpMsgOpts) {
 	vpValidity(r, m, k)
 	k.assume()
 	pre := vpRecord(r)
+	p2 := vpRecord2(r)
+	preCfg := r.trk.ConfState()
+	orig := append([]*pb.Entry(nil), m.GetEntries()...)
 	err := r.Step(m)
 	vpObserve("step", vpB2U(err != nil), r.Term, r.Vote, r.lead, uint64(r.state), r.raftLog.committed, uint64(len(r.msgs)), uint64(len(r.msgsAfterAppend)))
 	vpGenericPost(r, pre, m)
+	vpPostVotesGeneric(r, pre, m)
+	vpPostLeaderSends(r, pre, p2, m)
+	vpPostActivity(r, pre, p2, m)
+	switch m.GetType() {
+	case pb.MsgVote, pb.MsgPreVote:
+		vpPostVoteReq(r, pre, p2, m)
+	case pb.MsgHeartbeat:
+		vpPostHeartbeat(r, pre, m)
+	case pb.MsgApp:
+		vpPostAppend(r, pre, p2, m)
+	case pb.MsgSnap:
+		vpPostSnap(r, pre, p2, m, preCfg)
+	case pb.MsgProp:
+		vpPostProp(r, pre, p2, m, err, orig)
+	case pb.MsgCheckQuorum:
+		vpPostCheckQuorum(r, pre, p2)
+	}
 }
 
 func vpCell(role StateType, typ pb.MessageType) {
